@@ -184,5 +184,7 @@ theorem core3_header_keywords_checked (ge : Core3.GEnv) (f g : Core3.Func) (h : 
 
 /-- `internal internal`, `dso_local internal`, `internal private` are rejected; `internal dso_local hidden dllexport fastcc` is accepted -/
 example : Core3.leadOK [3, 3] = false ∧ Core3.leadOK [11, 3] = false ∧ Core3.leadOK [3, 6] = false ∧ Core3.leadOK [3, 11, 14, 16, 19] = true := by decide
+/-- return attributes (positions 63–68) may repeat and come in any order, but only behind the other families -/
+example : Core3.leadOK [3, 19, 66, 63, 66] = true ∧ Core3.leadOK [66, 19] = false ∧ Core3.leadOK [69] = false := by decide
 
 end Llir.Props.C05
